@@ -33,6 +33,7 @@ var tplSpecs = []tplSpec{
 	{"nested", "internal/generator/nested.go", nil},
 	{"expression", "internal/generator/expression.go", nil},
 	{"normalizer", "internal/validator/normalizer.go", nil},
+	{"iri_expander", "internal/misc/iri_expander.go", nil},
 	{"quote", "internal/generator/quote.go", nil},
 	{"quote_all_literals", "internal/generator/quote.go", []string{"regoStringContent"}},
 	{"message", "internal/parser/profile/message.go", []string{"ParseMessageExpression"}},
